@@ -1161,3 +1161,11 @@ package types
 //@   opt assumecallreqs
 //@   opt noinline
 //@   atcall ValidatorSet.RescalePriorities requires [windowIsTwiceTheTotal] diffMax == 2 * result(ValidatorSet.TotalVotingPower) && vs == outer(vs)
+
+// Block accessors used by validation: read-only (Header hands out a copy).
+//@ trusted func (b *Block) Header() (r *Header)
+//@   requires b != nil
+//@   modifies nothing
+//@   ensures r != nil
+//@ trusted func (b *Block) ValidateBasic(hasher TrieHasher) (err error)
+//@   modifies nothing
